@@ -187,7 +187,9 @@ def run(tier, seed, replay=None):
             rngt = random.Random(seed)
             tnames = sorted(set(rngt.sample(tnames, 50)) | {'VARBINARY', 'VARCHAR', 'TYPEENGINE', 'TUPLETYPE', 'INT', 'TEXT', 'NUMERIC', 'ARRAY', 'ENUM', 'JSON'} & set(tnames))
         for tn in tnames:
-            fixed += [f'select cast(a as {tn.lower()}) from t', f'create table t (a {tn.lower()})', f'create table t (a {tn.lower()}(5))']
+            fixed += [f'select cast(a as {tn.lower()}) from t', f'create table t (a {tn.lower()})', f'create table t (a {tn.lower()}(5))',
+                      f'select cast(a as {tn.lower()}(5)) from t', f'select cast(a as {tn.lower()}(10, 2)), cast(b as {tn.lower()}(8, 3)) from t',
+                      f'create table t (a {tn.lower()}(10, 2))']
         import gramgen
         try:
             gen = gramgen.statements(rng, 'mindsdb', 150 if tier == 'quick' else 3000)
